@@ -363,31 +363,42 @@ pub struct ThroughFile;
 impl ThroughFile {
     fn dims() -> [u64; 5] {
         // align (incl. 0), enc, namesz, descsz, (name family, type) of the first note
-        [9, 4, 9, 9, 6]
+        [9, 4, 9, 9, 8]
     }
 }
 impl Space for ThroughFile {
     fn name(&self) -> String {
-        "ElfBytes and ElfStream: section_data_as_notes (sh_addralign) and segment_data_as_notes (p_align, p_memsz != p_filesz) on generated files: align in {0,1,2,4,8,16,3,5,12} x 4 encodings x note1 (namesz, descsz in 0..=8; name family {XY.., GNU + NULs} x type {7, 1, 3}) followed by a build-id and an ABI-tag note".into()
+        "ElfBytes and ElfStream: section_data_as_notes (sh_addralign) and segment_data_as_notes (p_align, p_memsz != p_filesz) on generated files: align in {0,1,2,4,8,16,3,5,12} x 4 encodings x note1 (namesz, descsz in 0..=8; name family {XY.., GNU + NULs} x type {7, 1, 3, 5}) followed by an ABI-tag note and a 5-byte build-id whose trailing padding lies outside the section".into()
     }
     fn size(&self) -> u64 {
         product(&Self::dims())
     }
     fn describe(&self, idx: u64) -> Value {
         let d = unmix(idx, &Self::dims());
-        let ty = [7, 1, 3][(d[4] % 3) as usize];
-        json!({"align": if d[0] == 0 { 0 } else { ALIGNS[d[0] as usize - 1] }, "encoding": ENCS[d[1] as usize].name(), "namesz": d[2], "descsz": d[3], "name_family": if d[4] / 3 == 0 { "XY.." } else { "GNU + NULs" }, "type": ty})
+        let ty = [7, 1, 3, 5][(d[4] % 4) as usize];
+        json!({"align": if d[0] == 0 { 0 } else { ALIGNS[d[0] as usize - 1] }, "encoding": ENCS[d[1] as usize].name(), "namesz": d[2], "descsz": d[3], "name_family": if d[4] / 4 == 0 { "XY.." } else { "GNU + NULs" }, "type": ty})
     }
     fn run(&self, idx: u64, out: &mut Outcome) {
         let d = unmix(idx, &Self::dims());
         let align = if d[0] == 0 { 0 } else { ALIGNS[d[0] as usize - 1] };
         let enc = ENCS[d[1] as usize];
         let notes = vec![
-            NoteSpec { n_type: [7, 1, 3][(d[4] % 3) as usize], name: name_bytes(if d[4] / 3 == 0 { 1 } else { 0 }, d[2] as usize), desc: desc_bytes(d[3] as usize, 3) },
-            NoteSpec { n_type: 3, name: b"GNU\0".to_vec(), desc: desc_bytes(5, 9) },
+            NoteSpec { n_type: [7, 1, 3, 5][(d[4] % 4) as usize], name: name_bytes(if d[4] / 4 == 0 { 1 } else { 0 }, d[2] as usize), desc: desc_bytes(d[3] as usize, 3) },
             NoteSpec { n_type: 1, name: b"GNU\0".to_vec(), desc: desc_bytes(16, 1) },
+            NoteSpec { n_type: 3, name: b"GNU\0".to_vec(), desc: desc_bytes(5, 9) },
         ];
-        let body = build_notes(enc.order, align.max(1), &notes, 0);
+        let mut body = build_notes(enc.order, align.max(1), &notes, 0);
+        // two cases out of three: the section ends with the last descriptor, the padding that would
+        // follow it is not part of the section
+        {
+            let a = align.max(1);
+            let up = |x: usize| (x + a - 1) / a * a;
+            let last_len = up(12 + 4) + 5;
+            let full_last = up(last_len);
+            if align > 0 && body.len() >= full_last && idx % 3 != 0 {
+                body.truncate(body.len() - (full_last - last_len));
+            }
+        }
         let mut spec = Spec::new(enc, TableOrder::TablesFirst);
         spec.secs = vec![Sec::new(b".note.x", SHT_NOTE, body.clone()).addralign(align as u64)];
         // p_memsz differs from p_filesz (below it for even cases, as in core files; above it otherwise)
